@@ -54,6 +54,12 @@ def hostile_datagrams(h, victim, rng):
         out.append(('critical-unknown-payload', crit, peer_addr))
         vend = spi_i + spi_r + bytes([43, 0x20, 37, flags | 0x20]) + bytes(4) + (40).to_bytes(4, 'big') + bytes([0, 0, 0, 12]) + bytes([0xff, 0xfe, 0x80, 0, 1, 2, 3, 0xc3])
         out.append(('binary-vendor-id', vend, peer_addr))
+        # cleartext IKE_SA_INIT / INFORMATIONAL *responses* carrying exactly the Message ID this IKE_SA is waiting for or would use
+        # next (a number that grows with the history of the IKE_SA): once it holds keys they are somebody else's datagrams
+        for exch in (34, 37):
+            for mid in sorted({max(sa.my_msg_id - 1, 0), sa.my_msg_id, sa.my_msg_id + 1}):
+                out.append(('cleartext-response:%d:id%+d' % (exch, mid - sa.my_msg_id), spi_i + spi_r + bytes([0, 0x20, exch, flags | 0x20])
+                            + mid.to_bytes(4, 'big') + (28).to_bytes(4, 'big'), peer_addr))
     # a well-formed IKE_SA_INIT request with a binary vendor id and identity-like garbage, from the configured peer
     try:
         m = M.Message(spi_i=rng.randbytes(8), spi_r=bytes(8), major=2, minor=0, exchange_type=34, is_response=False,
@@ -208,6 +214,7 @@ def run(ctx):
                     res.nontrivial.add((stage, victim_name, what, bytes(data)[:40]))
                     res.count('event:' + what.split(':')[0])
                     n_esc = len(victim.escaped)
+                    keyed = [s for s in victim.sas() if s.my_crypto is not None and int(s.state) < 20] if what.startswith('cleartext-response') else []
                     if kind == 'dg':
                         dg = W.Datagram(w.next_id, src, victim.addrs[0], data, 'X')
                         w.next_id += 1
@@ -215,6 +222,12 @@ def run(ctx):
                     else:
                         ok, lines = guarded_step(victim, event=data)
                     worst = max(worst, lines)
+                    lost = [s for s in keyed if s not in victim.sas() or int(s.state) == 21]
+                    if lost:
+                        res.fail('keyed-ike-sa-lost-to-cleartext:' + what.split(':id')[0],
+                                 'stage %d, %s: an IKE_SA that holds keys was given up on an unprotected datagram (%s): %s'
+                                 % (stage, victim_name, what, [s.state.name for s in lost]),
+                                 {'seed': seed, 'stage': stage, 'victim': victim_name, 'event': what, 'data': bytes(data).hex()})
                     if isinstance(ok, common.Timeout) or lines > LINE_LIMIT:
                         res.fail('loop-wedged:' + what, 'one loop iteration did not come back within %d executed lines (%s)' % (LINE_LIMIT, what),
                                  {'seed': seed, 'stage': stage, 'victim': victim_name, 'event': what, 'data': bytes(data).hex()})
